@@ -243,7 +243,30 @@ static void run_program(Rng& r) {
                             ",\"max_error\":" + jstr(str(sk[alive[0]]->get_maximum_error())) + "}");
 }
 
-void run_case(uint64_t, Rng& r) {
+
+// adversarial key set: every key has the same home cell in the final table, so they form one probe run of several hundred
+// cells (far beyond 255) -- chosen with the library's own cell function (mining inputs only; the oracle stays the exact model)
+static void long_cluster_case(Rng& r) {
+  typedef frequent_items_sketch<int64_t, uint64_t> SK;
+  const uint8_t lg = uint8_t(r.range(9, 11));
+  const uint8_t start = r.coin() ? lg : uint8_t(r.range(3, lg));
+  const uint64_t mask = (uint64_t(1) << lg) - 1, home = r.below(mask + 1);
+  const size_t want = size_t(r.range(270, std::min(900, int((3u << lg) / 4) - 20)));   // the map refuses probe runs of 1024 cells ("drift limit reached"), a documented limit
+  describe("long cluster lg_max=" + std::to_string(lg) + " start=" + std::to_string(start) + " home=" + std::to_string(home) + " keys=" + std::to_string(want));
+  std::vector<int64_t> keys;
+  for (int64_t k = int64_t(r.below(1000000)); keys.size() < want; ++k) if ((fmix64(std::hash<int64_t>()(k)) & mask) == home) keys.push_back(k);
+  SK sk(lg, start); Model<int64_t, uint64_t> m; m.lg_max = lg; m.max_eps = SK::get_epsilon(lg);
+  std::vector<int64_t> universe(keys.begin(), keys.end());
+  universe.push_back(keys.back() + 1); universe.push_back(-12345);
+  const std::string K = "fi|i64|long-cluster|";
+  for (size_t i = 0; i < keys.size(); ++i) { const uint64_t w = 10 + i; sk.update(keys[i], w); m.add(keys[i], w); if (i == 255 || i == 256 || i == 300 || i + 1 == keys.size()) observe(sk, m, universe, r, "long cluster build", K); }
+  for (int i = 0; i < 200; ++i) { const int64_t k = keys[r.below(keys.size())]; sk.update(k, 1); m.add(k, 1); }
+  observe(sk, m, universe, r, "long cluster re-updates", K);
+  count("long_cluster_cases");
+}
+
+void run_case(uint64_t idx, Rng& r) {
+  if (idx % 40 == 17) { long_cluster_case(r); return; }
   switch (r.below(4)) {
     case 0: run_program<int64_t, uint64_t>(r); break;
     case 1: run_program<std::string, uint64_t>(r); break;
